@@ -159,6 +159,11 @@ fn gen_content(rng: &mut Rng, file: usize) -> String {
             _ => format!("{}\n", rng.below(1 << 31)),
         };
     }
+    if rng.chance(1, 150) {
+        // scale: a file of exactly 65535 / 65536 / 65537 / 131072 lines
+        let n = *rng.pick(&[65_535usize, 65_536, 65_536, 65_537, 131_072]);
+        return "x\n".repeat(n);
+    }
     if rng.chance(1, 12) {
         // a large file whose multi-byte characters straddle 4/8/16 KiB offsets
         let pad = rng.urange(0, 3);
@@ -223,7 +228,15 @@ impl Property for C20 {
             _ => rng.urange(2, 8),
         };
         let mut names: Vec<Vec<u8>> = Vec::new();
-        while names.len() < n {
+        let many = rng.chance(1, 120);
+        if many {
+            // scale: more than 255 / 256 package directories
+            let k = *rng.pick(&[257usize, 300, 300, 1100]);
+            for i in 0..k {
+                names.push(format!("pkg{}-1.{}nb{}", i, i % 50, i % 3).into_bytes());
+            }
+        }
+        while !many && names.len() < n {
             let nm: Vec<u8> = match rng.below(24) {
                 0 => rng.pick(&NODASH_NAMES).as_bytes().to_vec(),
                 1 => b"caf\xe9-1.0".to_vec(),
@@ -1036,7 +1049,7 @@ impl Property for C20 {
     }
 
     fn work_factor(&self) -> Option<u64> {
-        Some(64)
+        Some(128)
     }
     fn rule(&self) -> String {
         "Each run draws a database configuration: 0..8 package directories (names with one or several '-', nb \
